@@ -35,14 +35,14 @@ CHECKS = {
          "No state abstraction or pruning is used (histories are not merged), so nothing is hidden by an incomplete fingerprint; the alphabet bounds what scratch state can be reached.",
          "DESIGN.md section 3, C03"),
  "C02": ("model_checking",
-         "exhaustive exploration of environment answers: every dynamic map-range visit is a choice point whose key permutations are all executed on the real (build-time rewritten) code; identical ordered output demanded",
+         "exhaustive exploration of environment answers: every dynamic map-range visit is a choice point whose key permutations are all executed on the real (build-time rewritten) code; identical ordered output demanded; second choice per program: the company a checker runs in (registration order on a long-lived set vs reverse order on a fresh context)",
          "vinstr rewrites every `range` over a map-typed expression (decided with go/types) in linter, checkers, analyzer and cmd into iteration over verifmcrt.MapKeys (canonical order, then the permutation the explorer dictates); /repo is untouched (go build -overlay). For every scenario (each example/odd program analysed by all checkers on a long-lived set; registry listing) the canonical execution records its choice points, then every permutation of every choice point (<=4 keys: all 23; more: rotations, reversal, adjacent swaps) is executed as one deviation (thorough: all pairs) and the ordered diagnostics incl. fixes must be identical; a replayed prefix that diverges is a hard error and the same plan is executed twice first. Conformance: the uninstrumented binaries are run 8x (24x thorough) with identical arguments and must print identical bytes. Goroutine timing is C04's subject.",
-         "Map ranges inside third-party modules are not rewritten (only the repeated real runs see them). Sites never reached with >=2 keys are listed in evidence (CLI flag binding loops are order-insensitive by inspection and not driven).",
+         "The company choice has two answers per program (for every ordered pair of checkers one of them runs the one before the other), not all orders. Map ranges inside third-party modules are not rewritten (only the repeated real runs see them). Sites never reached with >=2 keys are listed in evidence (CLI flag binding loops are order-insensitive by inspection and not driven).",
          "DESIGN.md section 3, C02"),
  "C05": ("exploration",
          "bounded-exhaustive program enumeration x all checkers with a reflection-based deep fingerprint of tree, type info, context and registry around every checker run, plus forward/reverse checker order on pristine trees",
          "For every program of the corpus (examples, odd-syntax and build-constraint files, 1-deviation mutants, shadow family) the complete *ast.File graph (every field of every node, positions, slice backing arrays, comments, Obj/Scope), every types.Info map, every linter.Context field and the registered metadata/parameter values are hashed by reflection before and after checker runs (after every single checker for the example files; around the whole set with per-checker bisection otherwise); any difference is a write. Second leg: each program is analysed on two freshly parsed trees with the checker list in ascending and descending order and every checker must report the same diagnostics.",
-         "go/types objects are compared by identity (their interiors are lazily completed by go/types itself); FileSet.Base is excluded because harness workers share one file set; package-level variables of go-critic are not fingerprinted (covered indirectly by the order leg and by C03/C04).",
+         "go/types objects are compared by identity (their interiors are lazily completed by go/types itself); FileSet.Base is excluded because harness workers share one file set; every field of linter.Context, exported or not, is walked by reflection (no hand-written field list); package-level variables of go-critic are not fingerprinted (covered indirectly by the order leg and by C03/C04).",
          "DESIGN.md section 3, C05"),
  "C18": ("fault_enumeration",
          "exhaustive enumeration of fault sequences (rule files in every failure class, in every order up to a length) x failOn policy x legacy flag x group filters on the real loader, against a reference model of the stated policy",
@@ -87,12 +87,12 @@ CHECKS = {
  "C04": ("model_checking",
          "stateless model checking of the real concurrent code under a hand-written cooperative scheduler: DFS over schedules with a preemption bound (unbounded for small scenarios), invariants and sequential-result comparison in every execution; free-running race-detector legs as complement",
          "vinstr rewrites, at build time, the go statement, the chan struct{} semaphore, sync.WaitGroup and sync.Mutex of cmd/*/check.go and checkers/analyzer/run.go to scheduler shims (verifmcrt); /repo is untouched. Leg 1: the real checkFile with 1-3 probe checkers (walkers that yield, count how many are inside WalkFile, optionally panic with an error / a string) x concurrency 1..3, every interleaving (unbounded for <=2 checkers, preemption bound 2 otherwise, 3 thorough): no deadlock, at most `concurrency` walkers active, output lines equal the sequential order, foundIssues correct, a checker panic kills the run, identical replay. Leg 2: 2 and 3 concurrent passes of the real runAnalyzer from a fresh and a warm init latch x {valid, bad -go, empty selection}: every pass equals its sequential result, error reported as sequentially, nothing analysed after a failed init. Leg 3 (complement, sampling of schedules): -race builds of the real go-critic with -concurrency 1..16 on a workspace and of a harness that runs all 107 checkers as goroutines over every example file and parallel per-package checker sets; any race report or output difference is a violation.",
-         "The cooperative scheduler sees only the rewritten synchronisation points and yields inside probe walkers; unsynchronised accesses inside real checkers are the race-detector legs' and C05's subject. -concurrency <= 0 is outside the stated range.",
+         "The cooperative scheduler sees only the rewritten synchronisation points and yields inside probe walkers; unsynchronised accesses inside real checkers are the race-detector legs' and C05's subject (race legs: all checkers as goroutines per file, parallel per-package sets, the -race CLI at every concurrency value, and 8 really concurrent analyzer passes x 40 rounds per valid/invalid configuration, with the count of passes that return the init error compared to the sequential answer). A skeleton using primitives the rewriter does not know is reported as undrivable (cap; exit 2 if no other leg reports). -concurrency <= 0 is outside the stated range.",
          "DESIGN.md section 3, C04"),
  "C09": ("exploration",
          "bounded-exhaustive program enumeration; every machine fix and every message-quoted replacement is substituted into the file and judged by go/parser, go/types and re-analysis",
          "Over all example packages, the odd-syntax and type-shape families and all 1-deviation mutants of the examples (incl. re-typing declarations to defined/alias types and inserting a marker statement between every two adjacent statements): for each diagnostic with a QuickFix, and each message matching one of six quotation formats whose quoted original can be located in the source, the replacement must parse as the category of what it replaces; the file with the replacement substituted must type-check (std imports named by the replacement are added, now-unused imports ignored); the replaced expression must keep its type up to default typing (evaluated inside one type universe); marker statements inside a fix range must survive; and re-analysis must not report the same diagnostic at the same place (the checker's diagnostics in that file must decrease).",
-         "Messages in other formats are counted as unclassified and never judged. methodExprCall's two-part rewrite is not judged.",
+         "A fix whose range does not contain the diagnosed position is a violation of its own. Messages in other formats are counted as unclassified and never judged. methodExprCall's two-part rewrite is not judged.",
          "DESIGN.md section 3, C09"),
  "C12": ("exploration",
          "bounded-exhaustive enumeration of claim families; every program on which a checker asserts a run-time fact is compiled and executed on value grids by the real toolchain and the observed values compared with the claim",
